@@ -120,7 +120,7 @@ impl Property for C07 {
     }
     fn runs(&self, tier: &str) -> u64 {
         if tier == "thorough" {
-            80_000
+            250_000
         } else {
             5_000
         }
